@@ -1593,15 +1593,15 @@ func lemmaInBeforeContains(ks []string, x string, i int) {
 
 // fsEntryUnder(d, x): x is an entry the walk of directory d visits (d itself included).
 //@ pred fsEntryUnder(d string, x string): specEntryBefore(d, walkEntries(d), x, len(walkEntries(d)))
-//@ logic fsMissingDir(d string) bool
 
 //@ func gtree.defaultVerifierSimple.verifyRoot
 //@   requires nn: dv != nil && root != nil
 //@   modifies maps
 //@   use lemma lemmaInBeforeContains
-//@   ensures missingRoot [C08]: fsMissingDir(fpJoin2(dv.targetDir, specNodePath(root))) ==> result2 != nil
-//@   ensures missingList [C08]: dv.targetDir != "" && fsMissingDir(fpJoin2(dv.targetDir, specNodePath(root))) && result2 != nil && isType(result2, verifyError) ==> as(result2, verifyError).noExists == seqof(fpJoin2(dv.targetDir, specNodePath(root))) && len(as(result2, verifyError).extra) == 0
-//@   ensures lists [C08]: !fsMissingDir(fpJoin2(dv.targetDir, specNodePath(root))) && result2 == nil ==> (forall x string :: {contains(result1, x)} {specPathIn(dv.targetDir, root, x)} contains(result1, x) == (specPathIn(dv.targetDir, root, x) && !fsEntryUnder(fpJoin2(dv.targetDir, specNodePath(root)), x))) && (forall x string :: {contains(result0, x)} {fsEntryUnder(fpJoin2(dv.targetDir, specNodePath(root)), x)} contains(result0, x) == (fsEntryUnder(fpJoin2(dv.targetDir, specNodePath(root)), x) && !specPathIn(dv.targetDir, root, x)))
+//@   ensures exists [C08]: fsExistsAt(fpJoin2(dv.targetDir, specNodePath(root))) ==> result2 == nil
+//@   ensures missingRoot [C08]: !fsExistsAt(fpJoin2(dv.targetDir, specNodePath(root))) ==> result2 != nil
+//@   ensures missingList [C08]: dv.targetDir != "" && !fsExistsAt(fpJoin2(dv.targetDir, specNodePath(root))) && result2 != nil && isType(result2, verifyError) ==> as(result2, verifyError).noExists == seqof(fpJoin2(dv.targetDir, specNodePath(root))) && len(as(result2, verifyError).extra) == 0
+//@   ensures lists [C08]: fsExistsAt(fpJoin2(dv.targetDir, specNodePath(root))) && result2 == nil ==> (forall x string :: {contains(result1, x)} {specPathIn(dv.targetDir, root, x)} contains(result1, x) == (specPathIn(dv.targetDir, root, x) && !fsEntryUnder(fpJoin2(dv.targetDir, specNodePath(root)), x))) && (forall x string :: {contains(result0, x)} {fsEntryUnder(fpJoin2(dv.targetDir, specNodePath(root)), x)} contains(result0, x) == (fsEntryUnder(fpJoin2(dv.targetDir, specNodePath(root)), x) && !specPathIn(dv.targetDir, root, x)))
 //@ loop gtree.defaultVerifierSimple.verifyRoot#walk
 //@   invariant dir: $dir == fpJoin2(dv.targetDir, specNodePath(root)) && dirsFilesystem != nil && dirsMarkdown != nil && dirsFilesystem != dirsMarkdown
 //@   invariant md: forall x string :: {inSet(maps[dirsMarkdown], x)} inSet(maps[dirsMarkdown], x) == specPathIn(dv.targetDir, root, x)
@@ -1652,7 +1652,7 @@ func specVerifyText(strict bool, extra, noExists []string) string {
 //@   ensures lists [C08]: result != nil ==> isType(result, verifyError) && as(result, verifyError).strict == dv.strict && as(result, verifyError).extra == extra && as(result, verifyError).noExists == noExists
 
 // rootMatches(dv, r): every node path of r's subtree is an entry of the walked directory and, in strict mode, nothing else is.
-//@ pred rootMatches(dv *defaultVerifierSimple, r *Node): !fsMissingDir(fpJoin2(dv.targetDir, specNodePath(r))) && (forall x string :: {specPathIn(dv.targetDir, r, x)} specPathIn(dv.targetDir, r, x) ==> fsEntryUnder(fpJoin2(dv.targetDir, specNodePath(r)), x)) && (dv.strict ==> (forall x string :: {fsEntryUnder(fpJoin2(dv.targetDir, specNodePath(r)), x)} fsEntryUnder(fpJoin2(dv.targetDir, specNodePath(r)), x) ==> specPathIn(dv.targetDir, r, x)))
+//@ pred rootMatches(dv *defaultVerifierSimple, r *Node): fsExistsAt(fpJoin2(dv.targetDir, specNodePath(r))) && (forall x string :: {specPathIn(dv.targetDir, r, x)} specPathIn(dv.targetDir, r, x) ==> fsEntryUnder(fpJoin2(dv.targetDir, specNodePath(r)), x)) && (dv.strict ==> (forall x string :: {fsEntryUnder(fpJoin2(dv.targetDir, specNodePath(r)), x)} fsEntryUnder(fpJoin2(dv.targetDir, specNodePath(r)), x) ==> specPathIn(dv.targetDir, r, x)))
 
 //@ func gtree.defaultVerifierSimple.verify
 //@   requires nn: dv != nil
